@@ -113,7 +113,65 @@ let qlist_of = function
 let vres f = function Ok a -> f a | ErrLang -> A "ERRLANG" | ErrCrash -> A "ERRCRASH"
 let opt_idx = function [] -> None | [I i] -> Some (nat_of_int i) | _ -> failwith "index"
 
+(* ---- programs (QProg) ---- *)
+let psym_of = function
+  | I k -> YNum (nat_of_int k)
+  | L [A "neg"; I k] -> YNeg (YNum (nat_of_int k))
+  | _ -> failwith "param"
+let rec uop_of = function
+  | L [A "lib"; I g; l; ps] -> ULib (nat_of_int g, nats l, List.map psym_of (list_of ps))
+  | L [A "circ"; I nv; b; l] -> UCirc (nat_of_int nv, List.map uop_of (list_of b), nats l)
+  | _ -> failwith "uop"
+let pair2 x = match ints x with [a; b] -> (nat_of_int a, nat_of_int b) | _ -> failwith "pair"
+let cop_of = function
+  | L [A "u"; o] -> CU (uop_of o)
+  | L [A "barrier"; l] -> CBarrier (nats l)
+  | L [A "meas"; cr; ms; l] ->
+      CMeasure (List.map pair2 (list_of cr),
+                List.map (fun m -> match ints m with
+                  | [k; cn; ci] -> (nat_of_int k, (nat_of_int cn, nat_of_int ci)) | _ -> failwith "measurement") (list_of ms),
+                nats l)
+  | L [A "reset"; l] -> CReset (nats l)
+  | _ -> failwith "cop"
+let cops x = List.map cop_of (list_of x)
+(* naming of CircuitGates: association list keyed by the shape (structural equality) *)
+let nm_of names =
+  let tbl = List.map (function
+    | L [I id; I nv; b] -> ((nat_of_int nv, List.map (fun o -> p_shape (uop_of o)) (list_of b)), nat_of_int id)
+    | _ -> failwith "name") (list_of names) in
+  fun nv sb -> (try List.assoc (nv, sb) tbl with Not_found -> O)
+let n2s n = string_of_int (int_of_nat n)
+let show_ptok = function
+  | TkKw KwQreg -> "qreg" | TkKw KwCreg -> "creg" | TkKw KwGate -> "gate" | TkKw KwBarrier -> "barrier"
+  | TkKw KwMeasure -> "measure" | TkKw KwReset -> "reset"
+  | TkSy SyL -> "(" | TkSy SyR -> ")" | TkSy SyLB -> "<" | TkSy SyRB -> ">" | TkSy SyLC -> "{" | TkSy SyRC -> "}"
+  | TkSy SyComma -> "," | TkSy SySemi -> ";" | TkSy SyArrow -> "->"
+  | TkSpell g -> "s" ^ n2s g | TkCirc n -> "c" ^ n2s n | TkCreg n -> "r" ^ n2s n
+  | TkQ -> "q" | TkQn j -> "q" ^ n2s j | TkPn i -> "p" ^ n2s i | TkInt n -> "#" ^ n2s n
+  | TkLit (s, YNum k) -> (if s then "-n" else "n") ^ n2s k
+  | TkLit _ -> "n?"
+let vptoks l = A (String.concat "_" (List.map show_ptok l))
+let rec show_iop = function
+  | IPrim (g, l, ps) -> L [A "prim"; I (int_of_nat g); vnats l; L (List.map show_sym ps)]
+  | ICirc (nv, b, l) -> L [A "circ"; I (int_of_nat nv); L (List.map show_iop b); vnats l]
+let show_dop = function
+  | DU o -> L [A "u"; show_iop o]
+  | DBarrier l -> L [A "barrier"; vnats l]
+  | DMeasure (k, cn, ci, l) -> L [A "meas"; I (int_of_nat k); I (int_of_nat cn); I (int_of_nat ci); vnats l]
+  | DReset l -> L [A "reset"; vnats l]
+let show_prog (cr, ds) =
+  L [L (List.map (fun (a, b) -> L [I (int_of_nat a); I (int_of_nat b)]) cr); L (List.map show_dop ds)]
+
 let handle line = match parse line with
+  | [A "ptoks"; names; I n; gs; c] -> vptoks (p_toks (nm_of names) (nat_of_int n) (cops gs) (cops c))
+  | [A "ptoksv"; cfx; names; I n; gs; c] -> vptoks (p_toks_v (bool_of cfx) (nm_of names) (nat_of_int n) (cops gs) (cops c))
+  | [A "prtv"; cfx; names; fx; b; I n; gs; c] ->
+      vres show_prog (p_rt_v (bool_of cfx) (nm_of names) (bool_of fx) (fns b) (nat_of_int n) (cops gs) (cops c))
+  | [A "pdef"; names; I nv; b] -> vptoks (p_def_toks (nm_of names) (nat_of_int nv) (List.map uop_of (list_of b)))
+  | [A "prt"; names; fx; b; I n; gs; c] ->
+      vres show_prog (p_rt (nm_of names) (bool_of fx) (fns b) (nat_of_int n) (cops gs) (cops c))
+  | [A "pok"; names; I n; gs; c] -> vbool (p_ok (nm_of names) (nat_of_int n) (cops gs) (cops c))
+  | [A "pexpect"; c] -> L (List.map show_dop (p_expect (cops c)))
   | [A "flat"; fx; t] -> vtoks (m_flat (bool_of fx) (exp_of t))
   | [A "ok"; t] -> vbool (m_ok (exp_of t))
   | [A "simple"; t] -> vbool (m_simple (exp_of t))
